@@ -628,6 +628,10 @@ impl<const N: usize, S: SemanticString<N>> Real for SemReal<N, S> {
     fn relocate(&mut self) -> bool {
         false
     }
+    fn fingerprint(&mut self) -> Option<u64> {
+        // a Copy wrapper around a StaticString: its bytes are its whole state
+        fingerprint(&[Some((&self.s as *const S as *const u8, core::mem::size_of::<S>()))])
+    }
 }
 
 // ------------------------------------------------------------------------------------------------
